@@ -2,6 +2,7 @@ package main
 
 import (
 	"fmt"
+	"regexp"
 	"go/types"
 	"sort"
 	"strings"
@@ -11,7 +12,7 @@ import (
 
 func (e *Engine) newFnCtx(key string, fn *ssa.Function, c *FuncContract) *FnCtx {
 	fc := &FnCtx{e: e, fn: fn, c: c, key: key, short: shortKey(key), declSet: map[string]bool{}, base: map[string]Term{}, baseSort: map[string]string{},
-		modset: map[string][]Term{}, modAll: map[string]bool{}, trusted: map[string]bool{}, params: map[string]CVal{}, counter: map[string]int{},
+		modset: map[string][]Term{}, modpred: map[string][]string{}, modAll: map[string]bool{}, trusted: map[string]bool{}, params: map[string]CVal{}, counter: map[string]int{},
 		callees: map[string]bool{}, derived: map[string]bool{}}
 	if c != nil {
 		fc.props = c.Props
@@ -48,7 +49,7 @@ func (e *Engine) VerifyFunc(c *FuncContract) *FnCtx {
 			if lo, hi, ok := intRange(t); ok {
 				fc.fact(fmt.Sprintf("(and (<= %s %s) (<= %s %s))", lo, v.S, v.S, hi))
 			}
-		case srt == SString:
+		case srt == SString && c.Opts["strings"] != "opaque":
 			fc.fact(fmt.Sprintf("(str.in_re %s (re.* (re.range \"\\u{0}\" \"\\u{ff}\")))", v.S))
 		case isSlc(srt):
 			fc.fact(fmt.Sprintf("(and (<= 0 (soff %s)) (<= 0 (slen %s)))", v.S, v.S))
@@ -57,7 +58,7 @@ func (e *Engine) VerifyFunc(c *FuncContract) *FnCtx {
 	}
 	fr := fc.newFrame(fn, true)
 	for _, p := range fn.Params {
-		fr.vals[p] = bindParam(p.Name(), p.Type())
+		fr.vals[p] = bindParam(p.Name(), withReg(p.Type(), e.regionOf(p)))
 	}
 	for _, fv := range fn.FreeVars {
 		fr.vals[fv] = bindParam(fv.Name(), fv.Type())
@@ -83,7 +84,24 @@ func (e *Engine) VerifyFunc(c *FuncContract) *FnCtx {
 				fc.modAll[l.arr] = true
 				continue
 			}
+			if l.pred != "" {
+				fc.modpred[l.arr] = append(fc.modpred[l.arr], l.pred)
+				continue
+			}
 			fc.modset[l.arr] = append(fc.modset[l.arr], fc.define("mod", l.ref))
+		}
+	}
+	for _, nw := range c.NoWrite {
+		locs, err := env.evalLocs(nw.Expr)
+		if err != nil {
+			fc.unsupported("nowrite: %v", err)
+			continue
+		}
+		if fc.strict == nil {
+			fc.strict = map[string][]strictLoc{}
+		}
+		for _, l := range locs {
+			fc.strict[l.arr] = append(fc.strict[l.arr], strictLoc{fc.define("nowrite", l.ref), nw.Props, nw.Src})
 		}
 	}
 	// requires
@@ -96,6 +114,31 @@ func (e *Engine) VerifyFunc(c *FuncContract) *FnCtx {
 		}
 		fc.fact(t.S)
 		reqs = append(reqs, t.S)
+	}
+	// axioms the contract opts into (assumed; listed in the trusted base)
+	for _, an := range strings.Fields(c.Opts["axioms"]) {
+		found := false
+		for _, ax := range e.specs.Lemmas {
+			if ax.Name != an {
+				continue
+			}
+			found = true
+			aenv := &Env{fc: fc, pkg: ax.Pkg, vars: map[string]CVal{}, bound: map[string]CVal{}, st: st, old: fr.old}
+			t, err := aenv.evalBool(ax.Expr)
+			if err != nil {
+				fc.unsupported("axiom %s: %v", an, err)
+				continue
+			}
+			fc.fact(t.S)
+			if ax.Axiom {
+				fc.trusted["axiom "+ax.Name+": "+ax.Src] = true
+			} else {
+				fc.trusted["lemma "+ax.Name+" (proved as its own obligation)"] = true
+			}
+		}
+		if !found {
+			fc.unsupported("unknown axiom %s", an)
+		}
 	}
 	// global invariants: assumed everywhere except in the function that establishes them
 	for _, gi := range e.specs.GlobalInvs {
@@ -135,8 +178,9 @@ func (e *Engine) VerifyLemma(l *Lemma, axioms []*Lemma) *FnCtx {
 	fc := e.newFnCtx("lemma."+l.Name, nil, nil)
 	fc.short = "lemma"
 	fc.props = l.Props
-	env := &Env{fc: fc, vars: map[string]CVal{}, bound: map[string]CVal{}, st: &State{heap: map[string]Term{}}, old: &State{heap: map[string]Term{}}}
+	env := &Env{fc: fc, pkg: l.Pkg, vars: map[string]CVal{}, bound: map[string]CVal{}, st: &State{heap: map[string]Term{}}, old: &State{heap: map[string]Term{}}}
 	for _, ax := range axioms {
+		env.pkg = ax.Pkg
 		t, err := env.evalBool(ax.Expr)
 		if err != nil {
 			fc.unsupported("axiom %s: %v", ax.Name, err)
@@ -145,6 +189,7 @@ func (e *Engine) VerifyLemma(l *Lemma, axioms []*Lemma) *FnCtx {
 		fc.fact(t.S)
 		fc.trusted["axiom "+ax.Name+": "+ax.Src] = true
 	}
+	env.pkg = l.Pkg
 	t, err := env.evalBool(l.Expr)
 	if err != nil {
 		fc.unsupported("lemma %s: %v", l.Name, err)
@@ -158,8 +203,74 @@ func (e *Engine) VerifyLemma(l *Lemma, axioms []*Lemma) *FnCtx {
 	return fc
 }
 
+const opaquePrelude = `(declare-sort OStr 0)
+(declare-fun ostr.cat (OStr OStr) OStr)
+(declare-fun ostr.len (OStr) Int)
+(declare-const ostr.empty OStr)
+(assert (= (ostr.len ostr.empty) 0))
+(assert (forall ((a OStr)) (! (>= (ostr.len a) 0) :pattern ((ostr.len a)))))
+(assert (forall ((a OStr) (b OStr)) (! (= (ostr.len (ostr.cat a b)) (+ (ostr.len a) (ostr.len b))) :pattern ((ostr.cat a b)))))
+(assert (forall ((a OStr) (b OStr) (c OStr) (d OStr)) (! (=> (and (= (ostr.cat a b) (ostr.cat c d)) (= (ostr.len a) (ostr.len c))) (and (= a c) (= b d))) :pattern ((ostr.cat a b) (ostr.cat c d)))))
+`
+
+var reStrLit = regexp.MustCompile(`"(?:[^"]|"")*"`)
+var reStringSort = regexp.MustCompile(`\bString\b`)
+
+// opaqueText rewrites an SMT script so that Go strings are values of an uninterpreted sort with
+// concatenation and length only (every axiom used is a theorem about byte strings). Used for
+// functions in which strings are only map keys; reported as unsupported if other operations occur.
+func opaqueText(txt string) (string, error) {
+	var out []string
+	lits := map[string]string{}
+	var litDecls []string
+	for _, line := range strings.Split(txt, "\n") {
+		if strings.Contains(line, "RegLan") || strings.HasPrefix(line, "(define-fun ws$re") {
+			continue
+		}
+		line = reStrLit.ReplaceAllStringFunc(line, func(l string) string {
+			if l == `""` {
+				return "ostr.empty"
+			}
+			n, ok := lits[l]
+			if !ok {
+				n = fmt.Sprintf("ostr.lit%d", len(lits))
+				lits[l] = n
+				litDecls = append(litDecls, "(declare-const "+n+" OStr)")
+			}
+			return n
+		})
+		line = strings.ReplaceAll(line, "(str.++ ", "(ostr.cat ")
+		line = strings.ReplaceAll(line, "(str.len ", "(ostr.len ")
+		if strings.Contains(line, "(str.") || strings.Contains(line, "(re.") {
+			return "", fmt.Errorf("string operation outside the opaque subset: %s", firstLines(line, 1))
+		}
+		line = reStringSort.ReplaceAllString(line, "OStr")
+		out = append(out, line)
+	}
+	res := strings.Join(out, "\n")
+	// prelude goes right after set-logic
+	i := strings.Index(res, "(set-logic ALL)\n")
+	if i >= 0 {
+		i += len("(set-logic ALL)\n")
+		res = res[:i] + opaquePrelude + strings.Join(litDecls, "\n") + "\n" + res[i:]
+	}
+	return res, nil
+}
+
 // smtFile renders one obligation as an SMT-LIB script.
 func (o *Oblig) smtFile(getModel bool) string {
+	txt := o.smtFileRaw(getModel)
+	if o.Fc != nil && o.Fc.c != nil && o.Fc.c.Opts["strings"] == "opaque" {
+		t2, err := opaqueText(txt)
+		if err != nil {
+			return "(set-logic ALL)\n(echo \"" + strings.ReplaceAll(err.Error(), "\"", "'") + "\")\n(check-sat)\n"
+		}
+		return t2
+	}
+	return txt
+}
+
+func (o *Oblig) smtFileRaw(getModel bool) string {
 	fc := o.Fc
 	var sb strings.Builder
 	sb.WriteString("(set-option :produce-models true)\n(set-logic ALL)\n")
